@@ -58,6 +58,14 @@ def alias(name):
     return name if name.isascii() else "nonascii:" + name.encode("unicode_escape").decode()
 
 
+# a process killed inside a set on entering fsync (the only call of the set that the interpreter's start-up does not make as well,
+# so that the injection hits the set), then the SAME set retried by a new process on the same
+# directory - nothing was lost yet (a kill is not a power failure) - and other sets
+PROGRAMS += [
+    [["kill", "a", "v1", "fsync"], ("a", "v1"), ("b", "v2")],
+    [["kill", "a", "v3", "fsync"], ("b", "v1"), ("a", "v3")],
+    [["kill", "d/e/f", "big", "fsync"], ("d/e/f", "big"), ("d/e/f", "v1")],
+]
 PROGRAMS_THOROUGH = PROGRAMS + [
     [["||", ["a", "big"], ["a", "v3"]], ("a", "v1"), ["||", ["a", "v3"], ["a", "big"], ["a", "v2"]]],
     [("p/q", "v2"), ["||", ["p/q", "big"], ["p/q", "v3"]], ["||", ["p/q", "v3"], ["p/q", "big"]], ["||", ["p/q", "big"], ["p/q", "v2"]]],
@@ -87,12 +95,34 @@ def stored_bytes():
 
 
 def record(prog, vbytes):
+    """A program may start with ["kill", key, value, syscall]: a FIRST process starts that set and is killed when it enters the
+    system call (what it wrote stays in the page cache, unsynced); a second process then runs the rest of the program on the same
+    directory.  The two logs are one trace."""
     root = tempfile.mkdtemp(prefix="kvr-", dir=common.scratch())
     try:
-        rprog = [([it[0]] + [[real(m[0]), m[1]] for m in it[1:]]) if it[0] == "||" else (real(it[0]), it[1]) for it in prog]
+        events, paths, notes = [], [], []
+        if prog and prog[0][0] == "kill":
+            _, kkey, kval, sc = prog[0]
+            lines = fsrec.strace_lines(root, {"values": VALUES, "sets": [(real(kkey), kval)]}, kill_at=sc)
+            if lines is None:
+                return None, None, None      # the set never enters that call (the other programs judge a set without fsync)
+            ev1, p1, n1 = fsrec.to_events(fsrec.parse(lines, root), root, vbytes)
+            if not any(e["ev"] == "mark" and e["kind"] == "begin" for e in ev1) or any(e["ev"] == "mark" and e["kind"] == "return" for e in ev1):
+                return None, None, None      # the call was entered outside the set (before it began or after it returned)
+            events += [dict(e, i=0) if e["ev"] == "mark" else e for e in ev1]
+            paths += p1
+            notes += n1
+            prog = [(kkey, kval)] + list(prog[1:])
+            rest, shift = prog[1:], 1
+        else:
+            rest, shift = prog, 0
+        rprog = [([it[0]] + [[real(m[0]), m[1]] for m in it[1:]]) if it[0] == "||" else (real(it[0]), it[1]) for it in rest]
         lines = fsrec.strace_lines(root, {"values": VALUES, "sets": rprog})
         calls = fsrec.parse(lines, root)
-        events, paths, notes = fsrec.to_events(calls, root, vbytes)
+        ev2, p2, n2 = fsrec.to_events(calls, root, vbytes)
+        events += [dict(e, i=e["i"] + shift) if e["ev"] == "mark" else e for e in ev2]
+        paths = sorted(set(paths) | set(p2))
+        notes += n2
     finally:
         shutil.rmtree(root, ignore_errors=True)
     names = [n for n, _ in vbytes]
@@ -180,8 +210,8 @@ def materialise_and_recover(prog, keys, prefixes, events, vbytes, vd, k, tag):
                         f.write(c)
                 store = KeyValueStorage(root_path=root)
                 for p in keys:
-                    if p == inflight:
-                        continue
+                    if p == inflight or p in (pf.get("torn") or []):
+                        continue            # the key being written, or one whose set was interrupted and not repeated yet
                     want = tuple(pf["done"][p])
                     try:
                         got = store.get(real(p))
@@ -289,6 +319,9 @@ PROPERTY AllReturn
     traces = []
     for prog in progs:
         events, keys, notes = record(prog, vbytes)
+        if events is None:
+            ev.cov["kill_scenarios_that_could_not_be_built"] = ev.cov.get("kill_scenarios_that_could_not_be_built", 0) + 1
+            continue
         if any(e["ev"] == "unmodelled" for e in events):
             raise MachineryError(f"the store used a file-system call the persistence model does not cover: {notes}")
         if not any(e["ev"] == "otrunc" for e in events) or not any(e["ev"] == "write" for e in events):
